@@ -152,7 +152,7 @@ theorem inv3_step {P : Params} {s s' : State} (h2 : Inv2 s) (h : Inv3 P s) (hs :
       · intro x hx; simp [setPhase, phaseReads] at hx
       · unfold ConsPhase; simp only [setPhase, updF_same]
     · other_tx3 h j hj
-  | publishOne i run l todo newLoc v hp hv =>
+  | publishOne i run l todo newLoc v hp hl hv =>
     intro j
     by_cases hj : j = i
     · subst hj
@@ -172,7 +172,7 @@ theorem inv3_step {P : Params} {s s' : State} (h2 : Inv2 s) (h : Inv3 P s) (hs :
       · intro x hx; simp only [setPhase, updF_same, phaseReads] at hx; exact hpp x hx
       · unfold ConsPhase; simp only [setPhase, updF_same]; exact hcp
     · other_tx3 h j hj
-  | removeOne i run l todo newLoc hp =>
+  | removeOne i run l todo newLoc hp hl =>
     intro j
     by_cases hj : j = i
     · subst hj
@@ -230,7 +230,7 @@ theorem inv3_step {P : Params} {s s' : State} (h2 : Inv2 s) (h : Inv3 P s) (hs :
         simp only [updF_same] at hr; cases hr
         exact hcp
     · other_tx3 h j hj
-  | markErrSome i e ow l todo en hp hm =>
+  | markErrSome i e ow l todo en hp hl hm =>
     intro j
     by_cases hj : j = i
     · subst hj
@@ -238,7 +238,7 @@ theorem inv3_step {P : Params} {s s' : State} (h2 : Inv2 s) (h : Inv3 P s) (hs :
       · intro x hx; simp [phaseReads] at hx
       · unfold ConsPhase; simp only [updF_same]
     · other_tx3 h j hj
-  | markErrNone i e ow l todo hp hm =>
+  | markErrNone i e ow l todo hp hl hm =>
     intro j
     by_cases hj : j = i
     · subst hj
@@ -246,7 +246,7 @@ theorem inv3_step {P : Params} {s s' : State} (h2 : Inv2 s) (h : Inv3 P s) (hs :
       · intro x hx; simp [setPhase, phaseReads] at hx
       · unfold ConsPhase; simp only [setPhase, updF_same]
     · other_tx3 h j hj
-  | markValSome i l todo en hp hm =>
+  | markValSome i l todo en hp hl hm =>
     intro j
     by_cases hj : j = i
     · subst hj
@@ -254,7 +254,7 @@ theorem inv3_step {P : Params} {s s' : State} (h2 : Inv2 s) (h : Inv3 P s) (hs :
       · intro x hx; simp [phaseReads] at hx
       · unfold ConsPhase; simp only [updF_same]
     · other_tx3 h j hj
-  | markValNone i l todo hp hm =>
+  | markValNone i l todo hp hl hm =>
     intro j
     by_cases hj : j = i
     · subst hj
@@ -308,7 +308,7 @@ theorem inv3_step {P : Params} {s s' : State} (h2 : Inv2 s) (h : Inv3 P s) (hs :
       · intro x hx; simp [phaseReads] at hx
       · unfold ConsPhase; simp only [updF_same]
     · other_tx3 h j hj
-  | valCheck i ts done r todo conflict hp =>
+  | valCheck i ts done r todo conflict k hp hk =>
     intro j
     by_cases hj : j = i
     · subst hj
